@@ -115,7 +115,7 @@ def optionFormats : List Format :=
 
 def formats : List Format := [
   ⟨"ipv4", Fmt.ipv4.run, Fmt.ipv4.run⟩,
-  ⟨"ipv6", Fmt.ipv6.run, Fmt.ipv6.run⟩,
+  ⟨"ipv6", Fmt.ipv6.run, Parsers.goIPv6⟩,
   ⟨"cidrv4", Fmt.cidrv4.run, Parsers.goCIDRv4⟩,
   ⟨"cidrv6", Fmt.cidrv6.run, Parsers.goCIDRv6⟩,
   ⟨"mac", (Fmt.mac 58).run, (Fmt.mac 58).run⟩,
